@@ -276,7 +276,12 @@ func callName(c ssa.CallInstruction) string {
 		return cc.Method.Name()
 	}
 	if f := cc.StaticCallee(); f != nil {
-		return f.Name()
+		n := f.Name()
+		// instantiated generics are named "Set[K V]": use the base name
+		if i := strings.Index(n, "["); i > 0 {
+			n = n[:i]
+		}
+		return n
 	}
 	if b, ok := cc.Value.(*ssa.Builtin); ok {
 		return b.Name()
